@@ -794,6 +794,52 @@ def run(ctx, idx):
         ctx.ob("C11.e", "%s::raise(%s)::line-of-the-model" % (f.key, r[1].name), mod.rel, n.lineno, okl, "lineno <- %s" % K.src(e) if okl else
                "%s is raised with lineno=%s, which is not a line of the command file (a row of the data file, a counter): the error - and the command-line tool's `-->` mark - point at an unrelated line of the model, or past its end" % (r[1].name, K.src(e)))
     ctx.floor("C11.e", "library raise sites that pass a line", n_lib, 10)
+    # ------------------------------------------------------------------ i
+    ctx.rule("C11.i", "The fault is reported where it is, on every run: a command that failed is not left finished (C14.f's reading: the finished flag is set only after execute's value was stored, never in a finally / except block). Otherwise a second run no longer re-raises the fault at its own line - the commands that refer to the failed one fail instead, with ParameterNotValid at THEIR argument's line, where nothing is wrong.")
+    from .C01 import value_of_call_stores as _vcs
+    from engine.cfg import self_attr as _sa
+
+    A_ = K.anchors(idx)
+    fr_ = A_.run
+    sn_ = K.self_name(fr_)
+    cfr_ = K.cfg_of(idx, fr_)
+    ex_ = cfr_.find("call", lambda n: K.is_self_call(n.ast, "execute", sn_))
+    good_, _all_ = _vcs(cfr_, ex_, A_.memo, sn_)
+    ft_ = cfr_.find("store", lambda n: n.meta.get("attr") == A_.flag and _sa(n.ast, sn_) and isinstance(n.meta.get("value"), ast.Constant) and n.meta["value"].value is True)
+    if not ft_:
+        raise AnalysisError("C11.i: Command.run never sets the finished flag")
+    early_ = [f_ for f_ in ft_ if not cfr_.must_pass_through(cfr_.entry, f_, set(good_))]
+    ctx.ob("C11.i", "%s::failed-is-not-finished" % fr_.key, K.rel(fr_), (early_ or ft_)[0].line, not early_, "the finished flag is set only after execute's value was stored" if not early_ else
+           "`%s = True` at line %d is reached on paths where execute raised: the failed command counts as finished (result None), so on the next run - or the next read of a dependent result - the fault is not raised again at its own line; its consumers are refused instead (ParameterNotValid at the line of THEIR argument)" % (A_.flag, early_[0].line))
+    # ------------------------------------------------------------------ j
+    ctx.rule("C11.j", "Every list argument carries its own line: where from_source turns parsed list expressions into ListArgument values, the line handed to the constructor is the line of the node being converted - in the recursion for a nested list too (not a line carried down from the outer list).")
+    fs_ = idx.func("mpilot.program", "Program.from_source")
+    if fs_ is None:
+        raise AnalysisError("C11.j: Program.from_source vanished")
+    src_fs = getattr(fs_, "node_orig", None) or fs_.node
+    n_la = 0
+    for hf_ in [n for n in ast.walk(src_fs) if isinstance(n, ast.FunctionDef) and n is not src_fs]:
+        ctors = [c for c in ast.walk(hf_) if isinstance(c, ast.Call) and K.src(c.func).split(".")[-1] == "ListArgument"]
+        if not ctors:
+            continue
+        params_ = [a.arg for a in hf_.args.args]
+        for c in ctors:
+            n_la += 1
+            ln_ = next((k.value for k in c.keywords if k.arg == "lineno"), c.args[2] if len(c.args) > 2 else None)
+            okj, whyj = True, "lineno <- %s" % (K.src(ln_) if ln_ is not None else None)
+            if ln_ is None:
+                okj, whyj = False, "ListArgument is built without a line"
+            elif isinstance(ln_, ast.Name) and ln_.id in params_:
+                # the line is a parameter of the helper: every recursive call must pass the line of the nested node it converts
+                pos_ = params_.index(ln_.id)
+                for rc in [x for x in ast.walk(hf_) if isinstance(x, ast.Call) and isinstance(x.func, ast.Name) and x.func.id == hf_.name]:
+                    arg_ = rc.args[pos_] if len(rc.args) > pos_ else next((k.value for k in rc.keywords if k.arg == ln_.id), None)
+                    if not (isinstance(arg_, ast.Attribute) and arg_.attr == "lineno"):
+                        okj, whyj = False, "the recursive call `%s` hands the nested list the line `%s` it was itself given: every list inside another list carries the line of the outermost `[`, whatever line it starts on (the argument tree disagrees with the parser's and with list_linenos)" % (K.src(rc)[:50], K.src(arg_) if arg_ is not None else "-")
+            elif not (isinstance(ln_, ast.Attribute) and ln_.attr == "lineno"):
+                okj, whyj = False, "ListArgument gets `%s` as its line, which is not the line of the node being converted" % K.src(ln_)
+            ctx.ob("C11.j", "%s::list-line(%s)" % (fs_.key, hf_.name), K.rel(fs_), c.lineno, okj, whyj)
+    ctx.floor("C11.j", "ListArgument constructions in from_source", n_la, 1)
     # ------------------------------------------------------------------ f
     cli = idx.func("mpilot.cli.mpilot", "main")
     s_all = [n for n in own_nodes(cli.node)]
